@@ -1,3 +1,4 @@
+import CarModel.Proofs.MixedTrunc
 import CarModel.Proofs.V2
 /-
 C02 — Untrusted reads never yield corrupted or silently truncated content.
@@ -124,6 +125,30 @@ theorem carV2_truncated (H : HashFn) (o : ReadOpts) (seek : Bool) (dp ip : Nat) 
   rcases scan_truncated H o bs ok.blocks k hk with ⟨j, _, he, hs⟩ | ⟨pre, b, post, m, hbs, _, _, _, hs⟩
   · exact ⟨bs.take j, .eof, by rw [hs], Or.inl ⟨rfl, j, rfl, he⟩⟩
   · exact ⟨pre, .unexpectedEOF, by rw [hs], Or.inr ⟨rfl, b, post, hbs⟩⟩
+
+/-- (2c) **Skipping is scanning too: a CARv1 cut inside a section, any mix of Next and SkipNext, seekable or
+    plain source**: the
+    iteration visits exactly the complete sections before the cut — blocks for Next, exact metadata
+    for SkipNext — and then fails with an error that is not a clean end (C02's truncation clause for
+    the skipping reader; C14's exactness on the part of the archive that is there). `pre` are the
+    complete sections, `b` the section the cut falls in, `m` how many of its bytes survive. -/
+theorem skipping_reader_truncated (H : HashFn) (o : ReadOpts) (seek : Bool) (choice : Nat → Bool)
+    (roots : Option (List Cid)) (pre : List Block) (b : Block) (m : Nat)
+    (hwf : (CarHeader.mk roots 1).wf) (hmax : (encodeHeaderBody ⟨roots, 1⟩).length ≤ o.maxHeader)
+    (h63 : (encodeHeaderBody ⟨roots, 1⟩).length < 2 ^ 63) (hok : ∀ x ∈ pre, x.wf o.maxSection ∧ checkBlock H o.trusted x = .ok () ∧ x.cid.digest.length ≤ maxDigestAlloc)
+    (hb : b.wf o.maxSection) (hm0 : 0 < m) (hm : m < sectionSize b) :
+    ∃ br e, newBlockReader o seek (encodeHeader ⟨roots, 1⟩ ++ (sectionsBytes pre ++ (sectionBytes b).take m)) = .ok br ∧
+      e ≠ .eof ∧
+      BR.runChoices H o choice (pre.length + 1) 0 br
+        = (expectedVisits choice 0 0 (headerSize ⟨roots, 1⟩) pre, e) := by
+  have inv : BRInvT { version := 1, roots := roots.getD [], rest := (sectionsBytes pre ++ (sectionBytes b).take m),
+                      srcLen := (encodeHeader ⟨roots, 1⟩ ++ (sectionsBytes pre ++ (sectionBytes b).take m)).length,
+                      offset := headerSize ⟨roots, 1⟩, v1offset := 0, readerSize := none, seekable := seek,
+                      consumed := (encodeHeader ⟨roots, 1⟩).length } (headerSize ⟨roots, 1⟩) [] pre ((sectionBytes b).take m) :=
+    ⟨rfl, by simp [sectionsBytes], by intro _; simp [headerSize]; omega⟩
+  obtain ⟨e, hne, hrun⟩ := runChoices_truncated H o choice (headerSize ⟨roots, 1⟩) b m hb hm0 hm pre [] _ 0 (pre.length + 1) inv (by omega) hok
+  refine ⟨_, e, newBlockReader_v1 o seek roots _ hwf hmax h63, hne, ?_⟩
+  simpa [sectionsBytes] using hrun
 
 /-- (3) Corruption of a block's bytes or digest: if section `i` is replaced by a section whose CID
     is still well-formed but whose data no longer hashes to it (any change of data or digest bytes
